@@ -384,10 +384,38 @@ def _exchange_code_for_token(
 # ---------------------------------------------------------------------------
 
 
+def _has_browser_ambiguous_chars(url: str) -> bool:
+    r"""Report characters a browser rewrites before resolving a redirect target.
+
+    Browsers follow the WHATWG URL rules rather than RFC 3986: ``\`` is read as
+    ``/`` in http(s) URLs, tab/CR/LF are deleted wherever they appear, and
+    leading or trailing control characters and spaces are stripped.
+    ``urlparse`` does none of this, so a URL containing any of them can name a
+    different origin to the browser than the one validated here.
+
+    Args:
+        url: The candidate redirect target.
+
+    Returns:
+        ``True`` if *url* contains a backslash, an ASCII control character, or
+        leading/trailing whitespace.
+
+    """
+    if url != url.strip():
+        return True
+    return any(ch == "\\" or ch < " " or ch == "\x7f" for ch in url)
+
+
 def _validate_original_url(url: str, prefix: str) -> str:
     """Validate the original URL is relative and within the expected prefix."""
     if len(url) > _MAX_ORIGINAL_URL_LEN:
         url = url[:_MAX_ORIGINAL_URL_LEN]
+    if _has_browser_ambiguous_chars(url):
+        return prefix or "/"
+    # Only a path-absolute reference stays on this origin: "//host" (and, to a
+    # browser, any longer run of slashes) is a network-path reference.
+    if not url.startswith("/") or url[1:2] == "/":
+        return prefix or "/"
     parsed = urlparse(url)
     if parsed.scheme or parsed.netloc:
         # Not a relative URL — fall back to the prefix root
@@ -414,6 +442,8 @@ def _validate_return_to(url: str, allowed_origins: frozenset[str] = frozenset())
     port for localhost) are checked — any path is permitted.
     """
     if not url or len(url) > 2048:
+        return ""
+    if _has_browser_ambiguous_chars(url):
         return ""
     parsed = urlparse(url)
     if parsed.scheme not in ("http", "https"):
